@@ -203,6 +203,7 @@ type Gen struct {
 	touched map[string]bool // global facts already emitted: name@arrayversion
 	keys    map[string]Sort // heap keys used
 	reveal  map[string]bool // opaque macros expanded in this context
+	noSideFacts bool
 }
 
 func newGen(W *World, layer1 bool) *Gen {
